@@ -7,7 +7,7 @@ ASSUMPTIONS = [
     "`step out` is only available with `-f stack` (pinned by the existing expected-output test)",
 ]
 
-PROGS = [dbggen.p_countdown, dbggen.p_nested_jsr, dbggen.p_call_rets, dbggen.p_push_pop, dbggen.p_halt_middle,
+PROGS = [dbggen.p_call_next, dbggen.p_call_next_loop, dbggen.p_countdown, dbggen.p_nested_jsr, dbggen.p_call_rets, dbggen.p_push_pop, dbggen.p_halt_middle,
          dbggen.p_breaks, dbggen.p_selfloop, dbggen.p_exception, dbggen.p_no_halt, dbggen.p_high, dbggen.p_selfmod,
          dbggen.p_unknown_trap]
 
@@ -24,6 +24,14 @@ def alphabet(orig):
 def gen(tier, seed):
     rnd = random.Random(seed)
     specs = []
+    # every variant of "a call whose target is the following address" x every resuming command at every point
+    for s7 in range(12):
+        src, feat0 = dbggen.p_call_next(random.Random(s7))
+        for feat in sorted({feat0, 1}):
+            for k in range(0, 8):
+                for x in (("step",), ("stepinto", 1), ("continue",), ("stepout",)):
+                    pre = [("stepinto", k)] if k else []
+                    specs.append(("call-next", feat, src, [], pre + [x, ("registers",), ("step",), ("registers",), ("exit",)]))
     depth = 2 if tier == "quick" else 3
     for p in PROGS:
         src, feat = p(random.Random(7))
